@@ -135,6 +135,8 @@ class Interp:
         named_containers: bool = False,
         replay_logs: bool = False,
         heap: bool = False,
+        local_tables: bool = False,
+        module_attrs: Optional[Dict[str, Any]] = None,
     ):
         self.mod = mod
         self.consts = dict(mod.consts)
@@ -159,6 +161,8 @@ class Interp:
         self.fork_while = fork_while
         self.named_containers = named_containers   # a local bound to a fresh empty container keeps its name as identity
         self.replay_logs = replay_logs             # append-only local lists hold what was appended on the path; a later `for` over them replays it
+        self.local_tables = local_tables   # a store `T[<constant>] = v` into a local that holds a dict display with constant keys updates that display
+        self.module_attrs = dict(module_attrs or {})   # imported module name -> names it binds at top level (decides hasattr(module, "NAME"))
         self.heap_on = heap            # attribute stores are visible to later reads of the same attribute term on the path
         self.heap: Dict[Sym, Sym] = {}
         self.concrete_while = concrete_while   # a while loop whose test folds to a constant is executed iteration by iteration
@@ -217,7 +221,8 @@ class Interp:
                 iters = [n_ for n_ in ast.walk(fn) if isinstance(n_, ast.For) and isinstance(n_.iter, ast.Name) and n_.iter.id == nm]
                 if muts and all(m_.func.attr == "append" and len(m_.args) == 1 and not m_.keywords for m_ in muts) and len(inits) == 1 and inits[0].value is not None and (
                         (isinstance(inits[0].value, ast.List) and not inits[0].value.elts) or (isinstance(inits[0].value, ast.Call) and ast.unparse(inits[0].value) == "list()")) \
-                        and len(uses.get(nm, [])) == len(muts) + len(inits) + len(iters) + len(_pure_reads(fn, nm)):
+                        and len(uses.get(nm, [])) == len(muts) + len(inits) + len(iters) + len(_pure_reads(fn, nm)) + len(
+                            [r_ for r_ in ast.walk(fn) if isinstance(r_, ast.Return) and isinstance(r_.value, ast.Name) and r_.value.id == nm]):
                     self.append_only.add(nm)
         from . import sym as _sym
         _sym.MODULE_DEFS.clear()
@@ -741,6 +746,14 @@ class Interp:
             self.emit("store", (tgt, v), st)
             self.heap[tgt] = v
             return
+        if self.local_tables and isinstance(t, ast.Subscript) and isinstance(t.value, ast.Name) and self.frames and t.value.id in self.frames[-1]:
+            cur = self.frames[-1][t.value.id]
+            key = simplify(self._ev(t.slice))
+            if cur[0] == "dictd" and key[0] == "c" and all(k_[0] == "c" for k_, _ in cur[1]):
+                ents = [(k_, v_) for k_, v_ in cur[1] if not (k_[1] == key[1] and type(k_[1]) is type(key[1]))] + [(key, v)]
+                self.emit("store", (("sub", N(t.value.id), key), v), st)
+                self.frames[-1][t.value.id] = ("dictd", tuple(ents))
+                return
         tgt = self._ev(t)
         self.emit("store", (tgt, v), st)
 
@@ -1077,6 +1090,39 @@ class _EvalBuilder(_Builder):
                 if ok_c:
                     return C(frozenset(out_c)) if isinstance(n, ast.SetComp) else C(tuple(out_c))
                 del i.events[save_ev:]
+        if i.frames and len(gens) == 1 and not gens[0].is_async and isinstance(n, ast.DictComp) and not self.pure:
+            # a dict comprehension over a constant sequence whose filter and keys fold: the display with those keys (values stay terms)
+            it0 = self.ev(gens[0].iter)
+            if it0[0] == "c" and isinstance(it0[1], tuple) and len(it0[1]) <= 64:
+                ents_c = []
+                ok_c = True
+                save_ev = len(i.events)
+                try:
+                    for x in it0[1]:
+                        i._assign(gens[0].target, C(x), n, quiet=True)
+                        keep = True
+                        for c_ in gens[0].ifs:
+                            t_ = simplify(self.ev(c_))
+                            if t_[0] != "c":
+                                ok_c = False
+                                break
+                            if not t_[1]:
+                                keep = False
+                                break
+                        if not ok_c:
+                            break
+                        if keep:
+                            k_ = simplify(self.ev(n.key))
+                            if k_[0] != "c":
+                                ok_c = False
+                                break
+                            ents_c = [e_ for e_ in ents_c if e_[0] != k_] + [(k_, self.ev(n.value))]
+                finally:
+                    frame.clear()
+                    frame.update(saved)
+                if ok_c:
+                    return ("dictd", tuple(ents_c))
+                del i.events[save_ev:]
         try:
             its = []
             for g in gens:
@@ -1100,6 +1146,29 @@ class _EvalBuilder(_Builder):
 
     def _fold_call(self, s: Sym) -> Sym:
         f, args, kw = s[1], s[2], s[3]
+        if not kw and f[0] == "a" and f[1] == N("re") and f[2] in ("match", "search", "fullmatch") and len(args) == 2 and all(a[0] == "c" and isinstance(a[1], str) for a in args):
+            # a regular expression applied to a constant: the match (its groups) or None
+            import re as _re
+            from .sym import FoldedMatch
+            try:
+                m_ = getattr(_re, f[2])(args[0][1], args[1][1])
+            except _re.error:
+                return s
+            return C(None) if m_ is None else C(FoldedMatch((m_.group(0),) + tuple(m_.groups())))
+        if not kw and f[0] == "a" and f[1][0] == "c" and type(f[1][1]).__name__ == "FoldedMatch" and f[2] == "group" and len(args) <= 1 and all(a[0] == "c" and isinstance(a[1], int) for a in args):
+            try:
+                return C(f[1][1].groups[args[0][1] if args else 0])
+            except IndexError:
+                return s
+        if not kw and f == N("hasattr") and len(args) == 2 and args[0][0] == "n" and args[0][1] in self.i.module_attrs and args[1][0] == "c" and isinstance(args[1][1], str):
+            # hasattr(<imported module of this repository>, "NAME"): whether that module binds NAME at top level
+            return C(args[1][1] in self.i.module_attrs[args[0][1]])
+        if not kw and f[0] == "a" and f[2] == "get" and f[1][0] == "dictd" and len(args) in (1, 2) and args[0][0] == "c" and all(k_[0] == "c" for k_, _ in f[1][1]):
+            # {..constant keys..}.get(<constant>, default)
+            for k_, v_ in f[1][1]:
+                if k_[1] == args[0][1] and type(k_[1]) is type(args[0][1]):
+                    return v_
+            return args[1] if len(args) == 2 else C(None)
         if not kw and len(args) == 1 and f[0] == "a" and f[2] == "join" and f[1][0] == "c" and isinstance(f[1][1], (bytes, str)) and len(f[1][1]) == 0 \
                 and args[0][0] in ("list", "tuple") and args[0][1] and not any(x[0] == "star" for x in args[0][1]):
             # b"".join([a, b, c]) is a + b + c
